@@ -10,7 +10,7 @@ R6c  untracked reads are reported: every query function that reads the database'
 R6d  cycle recovery is present on every query of the import cycle and produces the CyclicDependency error.
 Not decided: equality with a fresh VM for all edit histories; correctness of salsa itself."""
 from . import flow
-from .common import table, CallGraph
+from .common import enum_switches_any, table, CallGraph
 
 CRATES = {"gluon", "gluon_vm"}
 QB = "gluon_salsa::QueryBase"
@@ -103,31 +103,71 @@ def r6a(fb, rep, R="R6a"):
 
 def r6b(fb, rep):
     R = "R6b"
-    rep.rule(R, "add_module invalidates the text query whenever it overwrites a stored source")
+    rep.rule(R, "add_module invalidates the text query exactly when it replaces a stored source by a different one")
     b = fb.body("<gluon::query::CompilerDatabase as gluon::query::CompilationBase>::add_module")
+    if b is None:
+        # by role: the function that both looks up State.inline_modules by entry and invalidates a query
+        cands = [x for x in fb.bodies.values() if x.crate.name == "gluon" and x.kind == "fn"
+                 and any(c.res.endswith("HashMap::<K, V, S, A>::entry") or c.res.endswith("HashMap::<K, V, S>::entry") for c in x.calls())
+                 and any(c.res.endswith("::invalidate") for c in x.calls())]
+        b = cands[0] if len(cands) == 1 else None
     if b is None:
         rep.anchor_lost(R, "CompilerDatabase::add_module")
         return
-    muts = [c for c in b.calls() if c.res.endswith("String::push_str") or c.res.endswith("String::clear") or c.res.endswith("Arc::<T, A>::make_mut") or c.res.endswith("::to_mut")]
+    OVERWRITE = ("String::push_str", "String::clear", "Arc::<T, A>::make_mut", "::to_mut", "OccupiedEntry::<'a, K, V, A>::insert", "OccupiedEntry::<'a, K, V>::insert",
+                 "mem::replace", "HashMap::<K, V, S, A>::insert", "HashMap::<K, V, S>::insert", "String::replace_range", "String::truncate")
+    entry = [c for c in b.calls() if c.res.rsplit("::", 1)[1] == "entry" and "HashMap" in c.res]
+    # the Occupied side of the match on the entry
+    occ_region = None
+    for bb, place, m, other in enum_switches_any(b):
+        if entry and not place[1] and place[0] == entry[0].dest[0] and len(m) + (1 if other is not None else 0) >= 2:
+            names = {0: "Occupied", 1: "Vacant"}
+            occ = m.get(0, other)
+            vac = m.get(1, other)
+            occ_region = b.reachable(occ, avoid_blocks=[bb]) - b.reachable(vac, avoid_blocks=[bb])
+    if occ_region is None:
+        rep.anchor_lost(R, "match on inline_modules.entry(module) in add_module")
+        return
+    muts = [c for c in b.calls() if c.bb in occ_region and any(c.res.endswith(x) for x in OVERWRITE)]
     inv = [c for c in b.calls() if c.res.endswith("::invalidate") and "QueryTableMut" in c.res]
     if not muts:
-        rep.anchor_lost(R, "the overwrite of the stored module text in add_module")
+        rep.violation(R, "occupied-entry-not-updated", "add_module never replaces the text of a module that is already stored (a reload would be ignored)", b.where())
         return
     if not inv:
         rep.violation(R, "no-invalidate", "add_module overwrites a stored module source and never invalidates module_text", b.where())
+        return
+    rets = set(b.return_blocks())
+    bad = False
+    for m_ in muts:
+        if b.reachable(m_.bb, avoid_blocks=[c.bb for c in inv]) & rets and m_.bb not in {c.bb for c in inv}:
+            bad = True
+    which = {b.tstr(g) for c in inv for g in c.desc.get("ga", [])}
+    if bad:
+        rep.violation(R, "overwrite-without-invalidate", "a path of add_module overwrites the stored text and returns without invalidate", muts[0].where())
+    elif not any("ModuleTextQuery" in w for w in which):
+        rep.violation(R, "invalidate-wrong-query", "add_module invalidates %s, not ModuleTextQuery" % sorted(which), inv[0].where())
     else:
-        rets = set(b.return_blocks())
-        bad = False
-        for m in muts:
-            if b.reachable(m.bb, avoid_blocks=[c.bb for c in inv]) & rets and m.bb not in {c.bb for c in inv}:
-                bad = True
-        which = {b.tstr(g) for c in inv for g in c.desc.get("ga", [])}
-        if bad:
-            rep.violation(R, "overwrite-without-invalidate", "a path of add_module overwrites the stored text and returns without invalidate", muts[0].where())
-        elif not any("ModuleTextQuery" in w for w in which):
-            rep.violation(R, "invalidate-wrong-query", "add_module invalidates %s, not ModuleTextQuery" % sorted(which), inv[0].where())
-        else:
-            rep.ok(R, "add_module: every path from the overwrite of the stored text passes ModuleTextQuery.invalidate(&module)")
+        rep.ok(R, "add_module: every path from the overwrite of the stored text passes ModuleTextQuery.invalidate(&module)")
+    # ... and only then: the invalidation (a new salsa revision: every untracked-read query, i.e. every module body, is re-run) lies
+    # behind the `stored text != new text` edge of a comparison of the two
+    guarded = {}
+    for bb, srcs, true_t, false_t in flow.bool_switches(b):
+        is_ne = flow.has_call(srcs, lambda n: n.endswith("::ne"))
+        is_eq = flow.has_call(srcs, lambda n: n.endswith("::eq"))
+        if not (is_ne or is_eq) or ("arg", 3) not in srcs:
+            continue
+        if not flow.has_call(srcs, lambda n: n.endswith("::into_mut") or n.endswith("::get") or n.endswith("::get_mut") or n.endswith("Deref::deref") or n.endswith("::deref")):
+            continue
+        differ = true_t if is_ne else false_t
+        if ("op", "Not") in srcs:
+            differ = false_t if is_ne else true_t
+        guarded[bb] = differ
+    ok_all = bool(guarded) and all(any(flow.only_via_edge(b, c.bb, (bb, t)) for bb, t in guarded.items()) for c in inv)
+    if ok_all:
+        rep.ok(R, "add_module: invalidate is reached only over the `stored text != new text` edge (an identical re-load is a no-op)")
+    else:
+        rep.violation(R, "invalidate-without-change-test", "add_module invalidates module_text without first finding the new text different from the stored one: "
+                      "re-submitting identical source starts a new revision and every module body is evaluated again", inv[0].where())
     # who writes State.inline_modules
     ST = "gluon::query::State"
     writers = set()
